@@ -162,7 +162,7 @@ func checkC17(c *Ctx) {
 				} else {
 					d := deletes[0]
 					a0 := p.Sym(d.Call.Args[0]).Strip()
-					if !(a0.IsField("manager", "tableEngines") || a0.IsField(mt.Obj().Name(), "tableEngines")) || p.Sym(d.Call.Args[1]).Strip().V != f.Params[1] && p.Sym(d.Call.Args[1]).Strip().String() != f.Params[1].Name() {
+					if !(a0.IsField("manager", "tableEngines") || a0.IsField(canonTypeName(mt.Obj()), "tableEngines")) || p.Sym(d.Call.Args[1]).Strip().V != f.Params[1] && p.Sym(d.Call.Args[1]).Strip().String() != f.Params[1].Name() {
 						okF5, d5 = false, "Delete not applied to the registry with the method's own table id"
 					} else if fw != nil {
 						// must be on the success edge of the forward call
@@ -291,10 +291,10 @@ func checkC17Registry(c *Ctx, mt *types.Named, getTE *ssa.Function, sentinel str
 				continue
 			}
 			a0 := p.Sym(cm.Args[0]).Strip()
-			if !a0.IsField(mt.Obj().Name(), "tableEngines") {
+			if !a0.IsField(canonTypeName(mt.Obj()), "tableEngines") {
 				// the registry address must not be handed to anything else
 				for _, a := range cm.Args {
-					if p.Sym(a).PathHas(mt.Obj().Name(), "tableEngines") {
+					if p.Sym(a).PathHas(canonTypeName(mt.Obj()), "tableEngines") {
 						c.Bad("F6", "registry-escape:"+FuncName(f), p.InstrPos(ci), "registry passed to "+calleeName(cm))
 					}
 				}
@@ -309,7 +309,7 @@ func checkC17Registry(c *Ctx, mt *types.Named, getTE *ssa.Function, sentinel str
 				ok := f == getTE && len(f.Params) > 1 && p.Sym(cm.Args[1]).Strip().String() == f.Params[1].Name()
 				c.Check(ok, "F6", key, where, "Load(own id) in GetTableEngine", "registry Load outside GetTableEngine or not keyed by the own id")
 			case "sync.Map.Delete":
-				ok := len(f.Params) > 1 && p.Sym(cm.Args[1]).Strip().String() == f.Params[1].Name() && (f.Name() == "CloseTable" || f.Name() == "ReleaseTable")
+				ok := len(f.Params) > 1 && p.Sym(cm.Args[1]).Strip().String() == f.Params[1].Name() && (fnName(f) == "CloseTable" || fnName(f) == "ReleaseTable")
 				c.Check(ok, "F6", key, where, "Delete(own id) in close/release", "registry Delete elsewhere or with a foreign id")
 			case "sync.Map.Store":
 				// Store(table.ID, engine) where table is the result of engine.CreateTable(setting)
@@ -341,8 +341,8 @@ func checkC17Registry(c *Ctx, mt *types.Named, getTE *ssa.Function, sentinel str
 	}
 	c.Min("F6", "registry operations", n, 4)
 	// whole-field stores (Reset / constructor)
-	for _, ss := range p.FieldStores(mt.Obj().Name(), "tableEngines") {
-		ok := ss.Fn.Name() == "Reset" || ss.Addr.Root().Kind == "new"
+	for _, ss := range p.FieldStores(canonTypeName(mt.Obj()), "tableEngines") {
+		ok := fnName(ss.Fn) == "Reset" || ss.Addr.Root().Kind == "new"
 		c.Check(ok, "F6", "registry-reset:"+FuncName(ss.Fn), p.InstrPos(ss.Instr), "whole-map reset in Reset/constructor", "registry replaced outside Reset/constructor")
 	}
 	// GetTableEngine maps failed Load to sentinel
@@ -398,7 +398,7 @@ func checkNoGlobalWrites(c *Ctx, rule string) {
 	p := c.P
 	bad := 0
 	for _, f := range p.Funcs {
-		if f.Name() == "init" || f.Synthetic != "" {
+		if fnName(f) == "init" || f.Synthetic != "" {
 			continue
 		}
 		for _, b := range f.Blocks {
